@@ -90,6 +90,8 @@ mod hss;
 mod lm_ots;
 mod lms;
 mod util;
+#[cfg(hbs_lms_verif)]
+pub mod verif_hooks;
 
 // Re-export the `signature` crate
 pub use signature::{self};
